@@ -119,10 +119,10 @@ def oracle_ops(toks, out):
                 hot, cold = parse_dump(d)
                 for key, h in cold.items():
                     if hot_type(*key) and hot.get(key) != h:
-                        bad.append(("after an inner call the cold store holds %s %d but the hot store does not hold the same bytes" % (FT[key[0]], key[1]), None))
+                        bad.append(("after an inner call the cold store holds a %s file but the hot store does not hold the same bytes" % FT[key[0]], None))
                 for key in hot:
                     if key[0] == 4 and not kind_of(key[1]):
-                        bad.append(("data pack %d is in the hot store" % key[1], None))
+                        bad.append(("a data pack is in the hot store", None))
         elif k == 2:
             key = (op[1], op[2])
             if key in cold and key[0] != 0:
@@ -423,8 +423,9 @@ def e2e_stage(ctx, impl, model, cov):
             marked = sorted({i for (sec, i, tree) in d["index_entries"] if tree and sec == 1})
             if marked: hist["repairs_with_marked_tree_packs"] = hist.get("repairs_with_marked_tree_packs", 0) + 1
             if d["index_read"] and sorted(d["tp_index"]) != named:
-                viol.append(("get_tree_packs (the packs repair_hotcold_packs treats as relevant) = %s, but the index files name the tree packs %s (of which marked for deletion, section packs_to_delete: %s); a tree pack listed by the cold store is not recreated in the hot store" % (sorted(d["tp_index"]), named, marked),
-                             case, {k2: d[k2] for k2 in ("index_entries", "tp_index", "state_before_repair", "state_after_repair")}, None))
+                viol.append(("get_tree_packs (the packs repair_hotcold_packs treats as relevant) differs from the tree packs the index files name in `packs` and `packs_to_delete`: a tree pack listed by the cold store (e.g. one that prune only marked for deletion) is not recreated in the hot store",
+                             case, {"get_tree_packs": sorted(d["tp_index"]), "tree_packs_named_by_index_files": named, "of_which_marked_for_deletion": marked,
+                                    **{k2: d[k2] for k2 in ("index_entries", "state_before_repair", "state_after_repair")}}, None))
             orphans = sorted(set(d["tp_flags"]) - set(named))
             if orphans: hist["faulted_cases_with_unindexed_tree_packs"] = hist.get("faulted_cases_with_unindexed_tree_packs", 0) + 1
             final_ok = "final=1" in full or (faulted and orphans)
@@ -433,8 +434,10 @@ def e2e_stage(ctx, impl, model, cov):
             rep_ok = chk_ok and not d["cold_changed"] and final_ok
             if not rep_ok:
                 sig = SIG_REPAIR_MISMATCH if (d["truncated"] and d["cold_changed"]) else None
+                wm = ["", " [cold store rejecting un-warmed reads of every file type, warm-up by access: RepositoryOptions::warm_up(true)]",
+                      " [cold store rejecting un-warmed reads of every file type, warm-up by command: RepositoryOptions::warm_up_command]"][wmode if rejects else 0]
                 what = ("repair hotcold copies an incomplete hot file over the intact cold file" if sig else
-                        "after removing hot files, repair hotcold does not restore a complete hot store (repair: %s, cold files changed: %s, inv_b: %s)" % (d["repair"][:80], d["cold_changed"], full.split()[-1]))
+                        "after removing hot files, open_only_cold + init_hot + repair hotcold (+ check) does not restore a complete hot store%s (repair: %s, cold files changed: %s, inv_b: %s)" % (wm, d["repair"][:80], d["cold_changed"], full.split()[-1]))
                 viol.append((what, case, {k2: d[k2] for k2 in ("repair", "cold_changed", "state_before_repair", "state_after_repair", "truncated", "removed_hot")}, sig))
             if rmodel != d["state_after_repair"]:
                 mism.append((line, d["state_after_repair"], rmodel))
